@@ -36,6 +36,11 @@ RULE = ("(a) operation sequences on ONE long-lived accountant (spends, slack mov
         "(a') the pure forms total(spent_budget=, slack=s), total(slack=s), total(spent_budget=) queried on accountants with a "
         "non-zero slack and spends of their OWN, s in {0, 0.0, tiny, own slack, other}: the reference is KOV(the spends "
         "actually meant, the slack actually passed); "
+        "(a'') stateful sequences with a harness-side ledger: accepted spends, spend attempts that must be refused (negative "
+        "eps, delta outside [0,1], both zero, NaN, below the minimum spend, wrong type, over budget), mutation of the list that "
+        "was passed to the constructor (append/clear/item assignment/del/extend/re-use for a second accountant that then "
+        "spends); after EVERY step total() = KOV(ctor-given spends + successful spend() calls, slack) to 1e-9 and >= KOV(1-1e-12), "
+        "total never decreases, len = number of accepted spends, and the Lean model (C04: refused => unchanged) agrees; "
         "(b) (spends, slack) pairs generated from the seed: 0..200 spends, eps log-uniform in [1e-12,1e3] in several styles "
         "(homogeneous small, mixed, wide, tiny, large, boundary values, eps=0 with delta>0), delta in [0,1] incl. 0, tiny, 1, "
         "slack in [0,1] incl. 0, denormal, tiny, near 1 and 1; each is evaluated by the real total(spent_budget=, slack=) "
@@ -671,6 +676,273 @@ def host_stream(ctx):
     ctx.count("host_queries_compared", len(lines))
 
 
+# ---------------------------------------------------------------- stateful stratum: the harness keeps its own ledger
+
+BAD_KINDS = ["neg-eps", "delta>1", "delta<0", "both-zero", "nan-eps", "nan-delta", "below-min", "type", "over-budget"]
+
+
+def bad_args(kind, a, b, ce):
+    """arguments of a spend attempt the accountant must refuse (a in (0,1): a size, b in (0,1): a delta)"""
+    base = 1.0 if math.isinf(ce) else ce
+    if kind == "neg-eps":
+        return (-a * base, b * 1e-3 if b < 0.5 else 0.0)
+    if kind == "delta>1":
+        return (a * base * 0.01, 1.0 + b)
+    if kind == "delta<0":
+        return (a * base * 0.01, -b)
+    if kind == "both-zero":
+        return (0.0, 0.0) if b < 0.5 else (0, 0)
+    if kind == "nan-eps":
+        return (float("nan"), b * 1e-3)
+    if kind == "nan-delta":
+        return (a * base * 0.01, float("nan"))
+    if kind == "below-min":                       # only exists for a finite ceiling (minimum spend = ceiling * 1e-14)
+        return (base * 1e-15 * (0.1 + a), b * 1e-6 if b < 0.5 else 0.0)
+    if kind == "type":
+        return ("0.1", 0.0) if b < 0.5 else (a * base * 0.01, None)
+    return (base * (2.0 + 100 * a), 0.0)          # over-budget (finite ceiling), refused with BudgetError
+
+
+def gen_ledger(r):
+    """(ce, cd, slack, prior, ops) for ONE accountant A built from a caller-owned list (plus, on demand, a second
+    accountant B built from the very same list object)"""
+    if r.chance(0.35):
+        ce, cd = float("inf"), float(r.choice([1.0, 0.5]))
+    else:
+        ce, cd = float(r.choice([1.0, 5.0, r.loguniform(0.1, 100.0)])), float(r.choice([1.0, 0.5, 0.1, r.uniform(0.05, 1.0)]))
+    slack = float(r.choice([0.0, 0.0, cd * r.loguniform(1e-6, 0.5), cd * 0.5 * r.u01(), min(cd, 1e-3)]))
+    base = 1.0 if math.isinf(ce) else ce
+    small = r.chance(0.5)
+
+    def a_spend():
+        e = base * (r.uniform(0.002, 0.012) if small else r.loguniform(1e-3, 0.05))
+        d = r.choice([0.0, 0.0, cd * r.loguniform(1e-9, 1e-3), 0.0])
+        if r.chance(0.05):
+            e, d = 0.0, cd * r.loguniform(1e-9, 1e-4)
+        return float(e), float(d)
+
+    prior = [a_spend() for _ in range(r.choice([0, 0, 1, 3, 8, r.randint(0, 25)]))]
+    ops = []
+    for _ in range(r.randint(6, 22)):
+        m = r.u01()
+        if m < 0.35:
+            ops.append(["spend", *a_spend()])
+        elif m < 0.65:
+            k = r.choice(BAD_KINDS)
+            if math.isinf(ce) and k in ("below-min", "over-budget"):
+                k = r.choice(["neg-eps", "delta>1", "both-zero"])
+            ops.append(["bad", k, float(r.uniform(0.05, 1.0)), float(r.uniform(0.01, 0.99))])
+        elif m < 0.88:
+            ops.append(["mut", r.choice(["append", "append", "clear", "setitem", "del", "extend", "neg"]), *a_spend()])
+        elif m < 0.95:
+            ops.append(["reuse", *a_spend()])
+        else:
+            ops.append(["obs"])
+    return ce, cd, slack, prior, ops
+
+
+LEDGER_FIXED = [
+    (1.0, 0.0, 0.0, [(0.1, 0.0)], [["bad", "neg-eps", 0.5, 0.9], ["obs"], ["spend", 0.1, 0.0], ["bad", "delta>1", 0.5, 0.5],
+                                   ["bad", "both-zero", 0.5, 0.2], ["bad", "nan-eps", 0.5, 0.2], ["bad", "over-budget", 0.1, 0.1],
+                                   ["bad", "type", 0.5, 0.2], ["bad", "below-min", 0.5, 0.2], ["spend", 0.2, 0.0]]),
+    (float("inf"), 1.0, 1e-2, [(0.1, 0.0)] * 30, [["mut", "append", 5.0, 0.5], ["obs"], ["mut", "clear", 0.1, 0.0], ["spend", 0.1, 1e-6],
+                                                 ["reuse", 0.7, 0.0], ["mut", "setitem", 3.0, 0.0], ["bad", "delta<0", 0.3, 0.3]]),
+    (2.0, 0.5, 0.1, [], [["mut", "append", 0.5, 0.0], ["spend", 0.01, 0.0], ["reuse", 1.0, 0.1], ["mut", "extend", 0.3, 0.0], ["obs"]]),
+]
+
+
+def run_ledger(seq):
+    """Run one sequence on the real accountant(s).  The reference is the harness's OWN ledger: the spends given to the
+    constructor at construction time plus every spend() call that returned normally.  Returns (records, violation|None);
+    records[i] = (kind | None, len, tot_eps, tot_delta) of accountant A after op i (index 0 = the constructor)."""
+    ce, cd, slack, prior, ops = seq
+    recs = []
+    lst = [tuple(x) for x in prior]                 # caller-owned; stays reachable and gets mutated below
+
+    def build(ce_, cd_, sl_, the_list):
+        with warnings.catch_warnings():
+            warnings.simplefilter("ignore")
+            with np.errstate(all="ignore"):
+                return dp.BudgetAccountant(ce_, cd_, sl_, spent_budget=the_list)
+    try:
+        A = build(ce, cd, slack, lst)
+    except ValueError as ex:
+        return [("budgetError" if isinstance(ex, BudgetError) else "valueError", 0, None, None)], None
+    accs = [{"name": "A", "acc": A, "ledger": [tuple(x) for x in prior], "slack": slack, "prev": None, "refs": {},
+             "ctor": f"BudgetAccountant({ce!r}, {cd!r}, slack={slack!r}, spent_budget=<list of {len(prior)}>)"}]
+
+    def observe(step):
+        what = f"step {step} {ops[step] if step >= 0 else 'constructor'}"
+        for st in accs:
+            a, led = st["acc"], st["ledger"]
+            here = f"{st['ctor']} after {what}: harness ledger has {len(led)} accepted spends"
+            try:
+                with warnings.catch_warnings():
+                    warnings.simplefilter("ignore")
+                    with np.errstate(all="ignore"):
+                        t = a.total()
+                        n = len(a)
+                        sb = a.spent_budget
+                te, td = float(t[0]), float(t[1])
+            except Exception as ex:  # noqa
+                return ("C05:ledger:total-raises", f"{here}: total()/len()/spent_budget raised {type(ex).__name__}: {str(ex)[:80]}")
+            key = len(led)
+            if key not in st["refs"]:
+                st["refs"][key] = kov_ref(led, st["slack"])
+            bad, _ = judge_kov(te, td, led, st["slack"], st["refs"][key])
+            if bad:
+                sig = bad[0] if bad[0] == SIG_CANCEL else "C05:ledger:total-not-kov-of-accepted"
+                return (sig, f"{here}, len()={n}; {bad[1]}")
+            if n != len(led):
+                return ("C05:ledger:len", f"{here} but len() = {n}")
+            if [tuple(x) for x in sb] != led:
+                return ("C05:ledger:spent_budget", f"{here} but spent_budget = {_short(list(sb))}")
+            if st["prev"] is not None and not (te >= st["prev"][0] * (1 - 1e-13) and td >= st["prev"][1] * (1 - 1e-13)):
+                return ("C05:ledger:total-decreased", f"{here}: total() went from {st['prev']} to ({te!r}, {td!r})")
+            st["prev"] = (te, td)
+        a0 = accs[0]
+        recs.append((None, len(a0["ledger"]), a0["prev"][0], a0["prev"][1]))
+        return None
+
+    v = observe(-1)
+    if v:
+        return recs, v + (-1,)
+    recs[-1] = ("ok",) + recs[-1][1:]
+    for i, op in enumerate(ops):
+        kind = None
+        A0 = accs[0]
+        try:
+            with warnings.catch_warnings():
+                warnings.simplefilter("ignore")
+                with np.errstate(all="ignore"):
+                    if op[0] == "spend":
+                        kind = "ok"
+                        A0["acc"].spend(op[1], op[2])
+                        A0["ledger"].append((op[1], op[2]))
+                    elif op[0] == "bad":
+                        e, d = bad_args(op[1], op[2], op[3], ce)
+                        kind = "ok"
+                        A0["acc"].spend(e, d)
+                        # a spend() that returns normally IS an accepted spend as far as the ledger goes; for the kinds that
+                        # can never be valid this is reported outright
+                        if op[1] != "over-budget":
+                            return recs, ("C05:ledger:invalid-spend-accepted",
+                                          f"{A0['ctor']}: spend({e!r}, {d!r}) [{op[1]}] returned normally", i)
+                        A0["ledger"].append((e, d))
+                    elif op[0] == "mut":
+                        item = (op[2], op[3])
+                        if op[1] == "append":
+                            lst.append(item)
+                        elif op[1] == "clear":
+                            lst.clear()
+                        elif op[1] == "setitem" and lst:
+                            lst[len(lst) // 2] = item
+                        elif op[1] == "del" and lst:
+                            del lst[-1]
+                        elif op[1] == "extend":
+                            lst.extend([item] * 3)
+                        elif op[1] == "neg" and lst:
+                            lst[0] = (-abs(op[2]) - 1.0, 0.0)            # a caller may put anything into HIS list
+                    elif op[0] == "reuse" and len(accs) < 3:
+                        try:
+                            B = build(float("inf"), 1.0, slack, lst)
+                        except ValueError:
+                            B = None                                    # the caller's list may hold junk by now
+                        if B is not None:
+                            st = {"name": "B", "acc": B, "ledger": [tuple(x) for x in lst], "slack": slack, "prev": None,
+                                  "refs": {}, "ctor": f"second accountant BudgetAccountant(slack={slack!r}, spent_budget=<the same list "
+                                                      f"object, {len(lst)} items>)"}
+                            accs.append(st)
+                            B.spend(op[1], op[2])
+                            st["ledger"].append((op[1], op[2]))
+        except BudgetError:
+            kind = "budgetError"
+        except ValueError:
+            kind = "valueError"
+        except TypeError:
+            kind = "typeError"
+        v = observe(i)
+        if v:
+            return recs, v + (i,)
+        if op[0] in ("spend", "bad") and not (op[0] == "bad" and op[1] == "type"):
+            recs[-1] = (kind,) + recs[-1][1:]
+    return recs, None
+
+
+def ledger_lines(seq):
+    ce, cd, slack, prior, ops = seq
+    flat = []
+    for e, d in prior:
+        flat += [f2b(e), f2b(d)]
+    lines = ["new " + " ".join(str(x) for x in [f2b(ce), f2b(cd), f2b(slack)] + flat)]
+    for op in ops:
+        if op[0] == "spend":
+            lines.append(f"spend {f2b(op[1])} {f2b(op[2])}")
+        elif op[0] == "bad" and op[1] != "type":
+            e, d = bad_args(op[1], op[2], op[3], ce)
+            lines.append(f"spend {f2b(e)} {f2b(d)}")
+        else:
+            lines.append("total")            # caller-side list mutation, second accountant, type errors: no-ops of the model
+    return lines
+
+
+def ledger_stream(ctx):
+    """random sequences of [accepted spends | attempts that must be refused, every error kind | mutation of the list that
+    was passed to the constructor, incl. re-use for a second accountant | observations]; after EVERY step
+    total() = KOV(spends the harness knows were accepted, slack), total never decreases, len = #accepted"""
+    r = ctx.fork("ledger")
+    seqs = list(LEDGER_FIXED) + [gen_ledger(r) for _ in range(ctx.budget(220, 3000))]
+    all_lines, spans, impl = [], [], []
+    for seq in seqs:
+        recs, viol = run_ledger(seq)
+        if viol:
+            ctx.violation(viol[0], viol[1], {"kind": "ledger", "seq": list(seq), "step": viol[2]})
+        kinds = tuple(rc[0] for rc in recs)
+        nontrivial = "ok" in kinds[1:] and any(k not in ("ok", None) for k in kinds[1:])
+        ctx.case(("ledger", f2b(seq[0]), f2b(seq[2]), len(seq[3]), hash(repr(seq[4]))) if nontrivial else None)
+        for k in kinds[1:]:
+            if k not in ("ok", None):
+                ctx.count("ledger_refused_" + k)
+        impl.append(recs)
+        ls = ledger_lines(seq)
+        spans.append((len(all_lines), len(ls)))
+        all_lines += ls
+    ctx.sample({"ledger_sequence": {"ceiling": [seqs[3][0], seqs[3][1]], "slack": seqs[3][2], "ctor_list_len": len(seqs[3][3]),
+                                    "ops": seqs[3][4][:10], "impl_after_each_op": impl[3][:11]}})
+    if ctx.searching and ctx.violations:
+        return
+    outs = leanio.run_driver("Accountant", all_lines)
+    for seq, recs, (a, ln) in zip(seqs, impl, spans):
+        ce, cd, slack, prior, ops = seq
+        good = True
+        for j, (rec, out) in enumerate(zip(recs, outs[a:a + ln])):
+            w = out.split()
+            kind, n, te, td = rec
+            if j == 0 and kind != "ok":
+                good = w[0] == kind
+                if not good:
+                    ctx.disagree("accountant.ledger", {"seq": list(seq), "step": -1}, out, list(rec))
+                break
+            okk = (kind is None or w[0] == kind) and len(w) >= 5 and not w[3].startswith("total-")
+            if okk:
+                me, md = b2f(int(w[3])), b2f(int(w[4]))
+                eps_sum = sum(e for e, _ in prior) + sum(o[1] for o in ops[:j] if o[0] == "spend")
+                okk = int(w[1]) == n and md == td and ((me == te) if slack == 0 else
+                                                       gen.rel_close(me, te, 1e-12, 4.5e-16 * eps_sum + 1e-300))
+            if not okk:
+                # an accept/refuse decision within rounding of a finite ceiling may legitimately differ (exp/log, slack > 0)
+                if kind is not None and w[0] != kind and slack > 0 and not math.isinf(ce) and j > 0 and \
+                        ops[j - 1][0] in ("spend", "bad") and te is not None and gen.rel_close(te, ce, 1e-9):
+                    ctx.boundary_skipped += 1
+                else:
+                    ctx.disagree("accountant.ledger", {"seq": list(seq), "step": j - 1}, out, list(rec))
+                good = False
+                break
+        if good:
+            ctx.trace_ok()
+    ctx.count("ledger_ops_compared", len(all_lines))
+
+
 # ---------------------------------------------------------------- entry points
 
 def check(ctx):
@@ -678,6 +950,9 @@ def check(ctx):
     if ctx.searching and ctx.violations:
         return
     host_stream(ctx)
+    if ctx.searching and ctx.violations:
+        return
+    ledger_stream(ctx)
     if ctx.searching and ctx.violations:
         return
     r = ctx.fork("cases")
@@ -721,6 +996,12 @@ def replay(ctx, data):
             return [fix(y) for y in x] if isinstance(x, list) else u(x)
         seq = fix(d["seq"])
         _, viol = run_live((float(seq[0]), float(seq[1]), float(seq[2]), seq[3]))
+        return viol is not None
+    if d["kind"] == "ledger":
+        def fixl(x):
+            return [fixl(y) for y in x] if isinstance(x, list) else u(x)
+        q = fixl(d["seq"])
+        _, viol = run_ledger((float(q[0]), float(q[1]), float(q[2]), [tuple(x) for x in q[3]], q[4]))
         return viol is not None
     if d["kind"] == "host":
         h = d["host"]
